@@ -83,6 +83,14 @@ theorem C20_close_drains {s s' : State} {t : Tid} {k : Nat} (h : Reachable s)
       injection hs with hs; subst hs; simp [hpp]
     · injection hs with hs; subst hs; simp at hr
 
+/-! `bot.Conn` (bot/client.go) is a thin wrapper around these queues: its receiving goroutine `Push`es every packet
+it read and `Close`s the queue when the socket fails; `(*Conn).ReadPacket` is `recv.Pull()` and reports the recorded
+read error only when `Pull` reports closure.  `C20_close_drains` (and `C20_chan_fifo` for the channel queue) therefore
+is the statement "every received packet is handed out, in order, before the read error"; that `ReadPacket` really is
+this wrapper (no other exit before the `Pull`) is checked by the correspondence op `conn.drain` (harness/c20conn.go:
+the peer writes n packets and closes while the consumer lags behind; both queue kinds), whose model side runs
+`Model.Queue` on the script push×n, close, pull×(n+1). -/
+
 /-! ### no lost wake-up, no deadlock -/
 
 /-- the wait set and the woken set are exactly the threads inside `cond.Wait`, without repetition -/
